@@ -74,3 +74,59 @@ Theorem C09_validate_prog_is_validate_pure :
     exists tr, run pre (validate_prog skip hint) a [] = (tr, a, Done (validate_pure pre a skip hint)).
 Proof. exact validate_run. Qed.
 Print Assumptions C09_validate_prog_is_validate_pure.
+
+(* ---- healthy side, as an invariant of the operations ---- *)
+From CV Require Import Backup Truth Healthy HealthyP.
+
+(* Every archive state reached from a fresh [init] by ANY history of completed backups (any
+   source, any configuration), backups killed after their band header was written (or before
+   anything was created), deletes of any set of versions and gc (any iteration order) is
+   Healthy ... *)
+Theorem C09_history_states_healthy : forall (pre : bytes -> N) (l : list hop),
+  history_ok pre (init_state pre) l ->
+  Forall (Valid.Healthy pre) (history_states pre (init_state pre) l)
+  /\ Valid.Healthy pre (run_history pre (init_state pre) l).
+Proof. exact history_healthy. Qed.
+Print Assumptions C09_history_states_healthy.
+
+(* ... hence validation of it, full or quick, reports no error. *)
+Theorem C09_history_states_validate_silently :
+  forall (pre : bytes -> N) (l : list hop) (a : arch) (skip : bool) (hint : list bytes),
+    history_ok pre (init_state pre) l ->
+    In a (history_states pre (init_state pre) l) ->
+    exists tr, run pre (validate_prog skip hint) a [] = (tr, a, Done {| v_ok := true; v_errors := 0 |}).
+Proof. exact history_validates. Qed.
+Print Assumptions C09_history_states_validate_silently.
+
+(* One backup, in full: from a healthy archive, for ANY fault list without a kill that leaves
+   a zero-length file (I/O failures on any operations, a kill anywhere), every state passed
+   through is healthy up to a file-less newest band directory, and healthy as soon as the new
+   band has its head. *)
+Theorem C09_backup_keeps_healthy :
+  forall (pre : bytes -> N) (c : cfg) (src : list sitem) (a0 : arch) (phi : list fault),
+    Valid.Healthy pre a0 -> no_torn phi ->
+    Forall (fun a => HealthyUH pre a /\ (get a (PHead (new_band a0)) <> None -> Valid.Healthy pre a))
+           (run_states pre (backup_prog pre c src) a0 phi)
+    /\ HealthyUH pre (Healthy.final pre (backup_prog pre c src) a0 phi)
+    /\ (get (Healthy.final pre (backup_prog pre c src) a0 phi) (PHead (new_band a0)) <> None ->
+        Valid.Healthy pre (Healthy.final pre (backup_prog pre c src) a0 phi)).
+Proof. exact backup_uh. Qed.
+Print Assumptions C09_backup_keeps_healthy.
+
+(* Delete / gc keeps the archive healthy at every point of every run, whatever fails. *)
+Theorem C09_delete_keeps_healthy :
+  forall (pre : bytes -> N) (ids : list N) (dry brk : bool) (hint : list bytes) (a0 : arch) (phi : list fault),
+    Valid.Healthy pre a0 ->
+    Forall (Valid.Healthy pre) (run_states pre (delete_prog ids dry brk hint) a0 phi)
+    /\ Valid.Healthy pre (snd (fst (run pre (delete_prog ids dry brk hint) a0 phi))).
+Proof. exact delete_healthy_all. Qed.
+Print Assumptions C09_delete_keeps_healthy.
+
+(* The excluded case is reported: a band directory without a head (a backup killed before it
+   wrote its header) makes validation report an error. *)
+Theorem C09_headless_band_reported :
+  forall (pre : bytes -> N) (a : arch) (b : N) (skip : bool) (hint : list bytes),
+    HealthyUH pre a -> In (DBand b) (dirs a) -> get a (PHead b) = None ->
+    1 <= v_errors (validate_pure pre a skip hint).
+Proof. exact headless_band_reported. Qed.
+Print Assumptions C09_headless_band_reported.
